@@ -155,6 +155,7 @@ fn concurrent(v: &Verdicts, runs: usize, seed0: u64) -> (u64, BTreeSet<u64>, BTr
                     if i % 2 == 1 {
                         plans.push((0..rng.range(1, 4)).map(|_| "get-safe k".to_string()).collect());
                     }
+                    let direct = i % 3 == 0;
                     let bodies: Vec<_> = plans
                         .iter()
                         .map(|lines| {
@@ -165,7 +166,17 @@ fn concurrent(v: &Verdicts, runs: usize, seed0: u64) -> (u64, BTreeSet<u64>, BTr
                                 for (j, l) in lines.iter().enumerate() {
                                     sched::yield_point(sc, tid, "op");
                                     sc.log(Ev::Call(tid, j, l.clone()));
-                                    let r = s.call_raw(&dbs, l);
+                                    // every third run the first client's versioned writes go through the write path
+                                    // itself (db_ops::set_key_value, what every transport calls): its reply carries the
+                                    // value it says is stored now, the transports reduce it to "ok"
+                                    let parts: Vec<&str> = l.splitn(4, ' ').collect();
+                                    let r = if direct && tid == 0 && parts[0] == "set-safe" {
+                                        let map = dbs.map.read().unwrap();
+                                        let dbh = map.get(&db).unwrap();
+                                        nundb::db_ops::set_key_value(parts[1].to_string(), parts[3].to_string(), parts[2].parse().unwrap_or(0), dbh, &dbs)
+                                    } else {
+                                        s.call_raw(&dbs, l)
+                                    };
                                     s.drain();
                                     sc.log(Ev::Ret(tid, j, short(&r)));
                                 }
@@ -233,6 +244,10 @@ fn concurrent(v: &Verdicts, runs: usize, seed0: u64) -> (u64, BTreeSet<u64>, BTr
                         problem = Some("watcher-notified-of-a-value-nobody-wrote");
                     } else if seen_stored.iter().any(|(val, ver)| written.contains(val) && !notes.iter().any(|n| n.1 == *val && n.0 == *ver)) {
                         problem = Some("value-read-as-stored-was-never-notified");
+                    } else if replies.iter().filter_map(|r| r.strip_prefix("Set ")).any(|named| !named.starts_with("base") && !notes.iter().any(|n| n.1 == named)) {
+                        // the write path said "this value is stored now", and at no time was it: every change of the stored
+                        // value reaches the watcher
+                        problem = Some("reply-names-a-value-that-was-never-stored");
                     } else if let Some(top) = notes.iter().max_by_key(|n| n.0) {
                         if top.1 != fval || top.0 != fver {
                             problem = Some("highest-versioned-notification-is-not-the-stored-value");
